@@ -1116,7 +1116,15 @@ pub enum AccessMode {
     DenyTyped,
     /// the default rule: refuse anonymous
     RequireCredentials,
+    /// an access object that overrides nothing: every hook keeps the trait's default body (`check` refuses anonymous
+    /// requests by default, the typed hooks allow); nothing is logged
+    TraitDefaults,
 }
+
+/// `S3Access` with every default body
+pub struct DefaultsOnlyAccess;
+
+impl s3s::access::S3Access for DefaultsOnlyAccess {}
 
 #[derive(Clone)]
 pub struct RecAccess {
@@ -1130,7 +1138,7 @@ impl RecAccess {
         let op = cx.s3_op().name().to_owned();
         self.log.lock().unwrap().push(format!("access.check:{op}:{}", ak.as_deref().unwrap_or("<anonymous>")));
         match &self.mode {
-            AccessMode::AllowAll | AccessMode::DenyTyped => Ok(()),
+            AccessMode::AllowAll | AccessMode::DenyTyped | AccessMode::TraitDefaults => Ok(()),
             AccessMode::DenyAll => Err(s3s::S3Error::with_message(s3s::S3ErrorCode::AccessDenied, "denied by check")),
             AccessMode::DenyOp(name) => {
                 if *name == op {
